@@ -86,6 +86,8 @@ structure DistOpts where
   hashSize : Int := 0
   /-- `obiconvert.CLICompressed()` -/
   compressed : Bool := false
+  /-- `--append` / `-A` (`CLIAppendSequences`) -/
+  append : Bool := false
   deriving Inhabited, Repr
 
 inductive Classifier where
@@ -139,5 +141,23 @@ def addToFile (f : String) (id : String) : List (String × List String) → List
 goes to the file of its class -/
 def distributeFiles (o : DistOpts) (c : Classifier) (recs : List Rec) : List (String × List String) :=
   (recs.zipIdx).foldl (fun acc (ri : Rec × Nat) => addToFile (fileName o (classOf c ri.2 ri.1)) ri.1.id acc) []
+
+/-! ## `--append`
+
+`CLIDistributeSequence` passes `OptionsAppendFile(CLIAppendSequences())` to every writer: the file of a
+class is opened with `O_APPEND` instead of `O_TRUNC` (`obiformats` `WriteFastaToFile` / `WriteFastqToFile`).
+The directory before the run is the association list `existing` (file name ↦ identifiers it holds). -/
+
+/-- content of one written file: the old content is kept in front with `--append`, lost without -/
+def writtenContent (append : Bool) (existing : List (String × List String)) (f : String × List String) :
+    String × List String :=
+  (f.1, (if append then (existing.lookup f.1).getD [] else []) ++ f.2)
+
+/-- the directory after the run: the files of the run (in order of creation) then the files the run
+did not touch -/
+def distributeFilesOn (o : DistOpts) (c : Classifier) (existing : List (String × List String)) (recs : List Rec) :
+    List (String × List String) :=
+  let run := distributeFiles o c recs
+  run.map (writtenContent o.append existing) ++ existing.filter fun e => !(run.map (·.1)).contains e.1
 
 end ObiVerif.Distribute
